@@ -443,6 +443,9 @@ func runC07(c *Ctx) {
 				}
 			}
 			for _, fc := range []byte{'{', '|', '}', '~', '`', '@', '[', '^'} { // characters beyond 'z' / around the letters
+				if len(s)-sep-1 <= 0 { // the encoder under test returned nothing usable (judged at the Encode event)
+					break
+				}
 				p := sep + 1 + r.Intn(len(s)-sep-1)
 				b32dec(c, s[:p]+string(fc)+s[p+1:])
 			}
